@@ -34,7 +34,9 @@ Record case := mkCase {
   c_spec : list (Z * bool * list Z * list N);         (* per stored day: timestamp, touched by the mutation?, block
                                                          timestamps, stored flows as rows (projected on the query) *)
   c_foreign : bool;                                   (* mutation gives a directory a name no writer produces *)
-  c_colonly : bool                                    (* mutation confined to column files (metadata intact) *)
+  c_colonly : bool;                                   (* block structure of the metadata intact (column-file damage, or
+                                                         damage to RawLen / encoder / entry counts of one block) *)
+  c_block : Z                                         (* index of the only damaged block of the touched day, -1 = whole day *)
 }.
 
 Definition fs_of (c : case) : fsys :=
@@ -112,6 +114,16 @@ Definition holds (c : case) : bool :=
     forallb (fun s => match s with (dts, touched, _, rows) =>
                touched || list_eqb row_eqb (filter (fun r => in_day dts (row_ts r)) obs)
                                           (filter (fun r => in_window c (row_ts r)) (rows_of_hex rows)) end) (c_spec c)
+    &&
+    (* block-level containment: damage confined to one block of the touched day - every OTHER block of that day
+       returns exactly its stored flows, too *)
+    forallb (fun s => match s with (dts, touched, bts, rows) =>
+               negb touched || (c_block c <? 0)%Z
+               || forallb (fun jt => match jt with (j, ts) =>
+                             (Z.of_nat j =? c_block c)%Z || negb (in_window c ts)
+                             || list_eqb row_eqb (filter (fun r => (row_ts r =? ts)%Z) obs)
+                                                 (filter (fun r => (row_ts r =? ts)%Z) (rows_of_hex rows)) end)
+                          (combine (seq 0 (length bts)) bts) end) (c_spec c)
     &&
     (* the statistics *)
     (let blocks_in (p : bool -> bool) :=
